@@ -209,19 +209,34 @@ impl Iterator for BytesIter {
         }
     }
 }
+/// ScVal::Bytes prefix as in real XDR: discriminant 13, 4-byte big-endian length, then the bytes (unpadded here).
 impl Ser for Bytes {
     fn ser(&self, o: &mut Buf) {
-        o.push(T_BYTES);
+        o.push(0);
+        o.push(0);
+        o.push(0);
+        o.push(13);
+        o.push(0);
+        o.push(0);
+        o.push((self.0.len >> 8) as u8);
         o.push(self.0.len as u8);
         o.extend_buf(&self.0)
     }
 }
 impl De for Bytes {
     fn de(r: &mut Rd) -> Option<Self> {
-        if r.byte()? != T_BYTES {
+        if r.byte()? != 0 || r.byte()? != 0 || r.byte()? != 0 || r.byte()? != 13 {
             return None;
         }
-        let n = r.byte()? as usize;
+        if r.byte()? != 0 || r.byte()? != 0 {
+            return None;
+        }
+        let hi = r.byte()? as usize;
+        let lo = r.byte()? as usize;
+        let n = (hi << 8) | lo;
+        if n > BCAP {
+            return None;
+        }
         let mut b = Buf::new();
         let mut i = 0;
         while i < BCAP {
@@ -455,9 +470,18 @@ impl String {
         }
     }
 }
+/// Layout of a string inside model XDR follows real XDR's ScVal::String prefix: 4-byte discriminant (14),
+/// 4-byte big-endian length, then the bytes — here padded to the fixed width SCAP (real XDR pads to 4),
+/// so `to_xdr().slice(8..8+len)` yields the string's bytes as on the real host.
 impl Ser for String {
     fn ser(&self, o: &mut Buf) {
-        o.push(T_STR);
+        o.push(0);
+        o.push(0);
+        o.push(0);
+        o.push(14);
+        o.push(0);
+        o.push(0);
+        o.push(0);
         o.push(self.len as u8);
         let mut i = 0;
         while i < SCAP {
@@ -468,7 +492,10 @@ impl Ser for String {
 }
 impl De for String {
     fn de(r: &mut Rd) -> Option<Self> {
-        if r.byte()? != T_STR {
+        if r.byte()? != 0 || r.byte()? != 0 || r.byte()? != 0 || r.byte()? != 14 {
+            return None;
+        }
+        if r.byte()? != 0 || r.byte()? != 0 || r.byte()? != 0 {
             return None;
         }
         let n = r.byte()? as usize;
